@@ -35,17 +35,31 @@ PROP = {
         'a unary operator (in the sense of LogicalExpr::lex_unary_op = lexUnary: a registered name that merely '
         'begins with `not` is not taken for one) or quantifier call, the node is not Combining). GoodAtom is PROVED '
         '(Props/C01Atoms.lean: goodAtom_boolField / goodAtom_intCmp / goodAtom_bytesCmp / goodAtom_rawCmp / '
-        'goodAtom_ipCmp / goodAtom_ip6Cmp / goodAtom_concrete) for the concrete atoms of Lemmas/Atoms.lean: a '
-        'bare Bool field, or `field ws1 op ws2 literal` with any of the six ordering operators in either '
-        'spelling, any layout on both sides, and a literal that is an integer (dec/0x hex/0 octal), a quoted '
-        'byte string (any escape per byte), a raw string, an IPv4 dotted quad or an IPv6 address (full or std '
-        'Display form); decidable side conditions CAtom.ok: the name is a dotted identifier other than the bare '
+        'goodAtom_ipCmp / goodAtom_ip6Cmp / goodAtom_indexedBool / goodAtom_indexedCmp / goodAtom_inSet / '
+        'goodAtom_contains / goodAtom_concrete) for the concrete atoms `name path tail` of Lemmas/Atoms.lean: '
+        'name = a field; path = zero or more index suffixes as written, `[k]` (k < 2^32 in dec/0x hex/0 octal) '
+        'or `["key"]` (quoted string with any escape per byte, bytes valid UTF-8; escape-free printable-ASCII '
+        'keys as the special case plain_key_suffix), chained, with layout exactly after `[` and before `]` (as '
+        'IndexExpr::lex_with skips it; none between name and `[` or between `]` and `[`); tail = nothing (a Bool '
+        'left-hand side), or `ws1 op ws2 literal` with any of the six ordering operators in either spelling and '
+        'a literal that is an integer (dec/0x hex/0 octal), a quoted byte string (any escape per byte), a raw '
+        'string, an IPv4 dotted quad or an IPv6 address (full or std Display form), or `ws1 in ws2 { ws0 item ws '
+        '... }` with integer items `a` / `a..b` (each bound an i64 in its own radix, a <= b, items separated by '
+        '>= 1 layout character, optional layout after `{` and before `}`; the node is OneOf(Int ranges) with the '
+        'ranges in the order written, a single value a as (a, a): set_ranges_in_order - the parser neither '
+        'merges nor sorts), or `ws1 contains ws2 literal` with a quoted or raw literal. Decidable side conditions '
+        'CAtom.ok: the name is a dotted identifier other than the bare '
         'word `not` (names that BEGIN with `not` are covered since lex_unary_op reads a registered name as the '
-        'identifier; the former hypothesis "does not start with `not`" is removed; bare Bool fields: also not '
-        'exactly any/all), the scheme has a field of that name and of the '
-        'literal\'s type, a word spelling is separated from the name by >= 1 space, the literal is in range. '
-        'Atoms with other operators (in {..}, in $list, contains, matches, wildcard, &), with index suffixes '
-        '[..], with function calls, quantifiers, hex-pair byte literals a1:b2 and CIDR/short addresses are NOT '
+        'identifier; the former hypothesis "does not start with `not`" is removed), the scheme has a field of '
+        'that name, the index path is well-typed for its declared type (array index on an array, key on a map: '
+        'pathTy = recursion on the type, path_typing_by_type; necessary: index_path_illtyped_rejected) and ends '
+        'in the tail\'s type (Bool for a bare atom, the literal\'s type, Int for in {..}, Bytes for contains), '
+        'literals / indexes / items are in range, and where the tail meets a BARE name (empty path) a word '
+        'operator (eq.., in, contains) is separated from it by >= 1 space and a bare Bool field is not called '
+        'any/all; after `]` no separation is needed. '
+        'Atoms with other operators (in $list, in {..} on Ip/Bytes fields, matches, wildcard, &), with the '
+        'map-each suffix [*], with function calls, quantifiers, hex-pair byte literals a1:b2 (also under '
+        'contains) and CIDR/short addresses are NOT '
         'covered by the concrete theorem (abstract GoodAtom + differential run). Renderings are exactly those '
         'of Lemmas/Render/Defs.lean (any alias, any layout, a space mandatory only between an atom and the next '
         'combining operator; the word `not` may be glued to its operand exactly where glueOk env holds: layout '
@@ -91,13 +105,22 @@ TEXT = {
              'intended AST), alias_layout_invariance_concrete (two texts with the same fields, operators and values '
              'but different logical aliases, comparison aliases, layout everywhere and literal forms give the same '
              'AST, JSON and hash), with worked examples on a scheme i:Int, b:Bool, tcp.port:Int, ip.src:Ip, '
-             'http.host:Bytes (`tcp.port ge 80 and not (i ==  -5 or b)` = `tcp.port>=80&&!(i eq -5||b)`). The '
+             'http.host:Bytes, tcp.ports:Array Int, http.headers:Map Bytes, m:Map(Array Bytes), flags:Map Bool '
+             '(`tcp.port ge 80 and not (i ==  -5 or b)` = `tcp.port>=80&&!(i eq -5||b)`; `tcp.port in {80 443 '
+             '8000..8100} and http.headers["host"] contains "x" or m["a"][0] == "v"` = the spelling with `in{`, a hex '
+             'item, layout inside braces and brackets, escaped key and needle, `&&`/`||`), and sharpness examples '
+             '(ill-typed paths, layout outside the brackets, unseparated word operators and set items are rejected '
+             'or mean something else). goodAtom_indexedBool / _indexedCmp / _inSet / _contains, index_path_parses, '
+             'index_path_illtyped_rejected, set_ranges_in_order widen the atom language to index suffixes, integer '
+             'sets and contains. The '
              'model is tied to the code by the differential stream exec-scalar (the driver parses the '
              'filter text itself).',
     'note': 'Trusted: Lean kernel; axioms propext/Classical.choice/Quot.sound; extractor; harness. Modelled '
             'not verified: std comparison operators on i64/[u8]/IpAddr, macro expansion of lex_enum!, '
             'derive(Ord), literal lexing. climb_layered is stated over an abstract operand stream; its '
             'instantiation at character level is parse_render_logical (proved over abstract atoms under GoodAtom) '
-            'and parse_render_concrete (GoodAtom proved for bare Bool fields and ordering comparisons against '
-            'int / bytes / ip literals; other comparison forms remain tied by correspondence).',
+            'and parse_render_concrete (GoodAtom proved for atoms `name path tail`: path = index suffixes [k] / '
+            '["key"] well-typed for the field, tail = nothing (Bool), an ordering comparison against an int / bytes / '
+            'ip literal, `in { int items }` or `contains` a quoted/raw string; [*], in $list, in-sets of Ip/Bytes, '
+            'matches / wildcard / &, function calls and quantifiers remain tied by correspondence).',
 }
